@@ -20,6 +20,7 @@ import (
 	"sort"
 	"strings"
 	"sync"
+	"sync/atomic"
 	"time"
 
 	log "github.com/golang/glog"
@@ -92,6 +93,13 @@ type Op struct {
 	Tgt string `json:"tgt,omitempty"`
 	Msg string `json:"msg,omitempty"`
 	N   *NotiJ `json:"n,omitempty"`
+	// K == "pair": A is started, parked at the hook Park (now: inside the
+	// cache.Now override; feed: at its first callback; feeddel: at its first
+	// callback carrying a delete) -- i.e. inside its critical section -- and B
+	// is then issued from a second goroutine.
+	A    *Op    `json:"a,omitempty"`
+	B    *Op    `json:"b,omitempty"`
+	Park string `json:"park,omitempty"`
 }
 
 type DumpJ struct {
@@ -101,7 +109,8 @@ type DumpJ struct {
 }
 
 type ObsJ struct {
-	Res     string   `json:"res"` // ok stale future other multi panic
+	Res     string   `json:"res"`           // ok stale future other multi panic pair overtook
+	Sub     []ObsJ   `json:"sub,omitempty"` // pair: the results of A and B
 	Multi   []string `json:"multi,omitempty"`
 	Feed    []NotiJ  `json:"feed,omitempty"`
 	Dump    []DumpJ  `json:"dump,omitempty"`
@@ -203,6 +212,11 @@ func (s shared) prefix(n *NotiJ) *pb.Path {
 	el := make([]*pb.PathElem, len(p.Elem), len(p.Elem)+n.PfxSpare)
 	copy(el, p.Elem)
 	p.Elem = el
+	if len(p.Element) > 0 { // the deprecated encoding, with spare capacity too
+		es := make([]string, len(p.Element), len(p.Element)+n.PfxSpare)
+		copy(es, p.Element)
+		p.Element = es
+	}
 	s[n.PfxID] = p
 	return p
 }
@@ -211,7 +225,14 @@ func (s shared) mkNoti(n *NotiJ) *pb.Notification {
 	out := &pb.Notification{Timestamp: n.TS, Atomic: n.Atomic, Prefix: s.prefix(n)}
 	for i := range n.Upd {
 		u := &n.Upd[i]
-		out.Update = append(out.Update, &pb.Update{Path: mkPath(u.Path), Val: mkVal(u.Val), Duplicates: u.Dup})
+		up := mkPath(u.Path)
+		if up != nil && n.PfxSpare > 0 { // every slice-typed field of the paths gets spare capacity
+			up.Elem = append(make([]*pb.PathElem, 0, len(up.Elem)+n.PfxSpare), up.Elem...)
+			if len(up.Element) > 0 {
+				up.Element = append(make([]string, 0, len(up.Element)+n.PfxSpare), up.Element...)
+			}
+		}
+		out.Update = append(out.Update, &pb.Update{Path: up, Val: mkVal(u.Val), Duplicates: u.Dup})
 	}
 	for i := range n.Del {
 		out.Delete = append(out.Delete, mkPath(&n.Del[i]))
@@ -365,6 +386,21 @@ type runner struct {
 	srv     *subscribe.Server
 	streams []*gstream
 	inputs  []inputRec
+	mu      sync.Mutex // feed and inputs (two writer goroutines under a pair)
+	// parking of the first writer of a pair
+	armed    int32
+	parkMode string
+	parked   chan struct{}
+	resume   chan struct{}
+	nowVal   int64
+}
+
+// maybePark parks the calling goroutine once, if a pair armed this hook.
+func (r *runner) maybePark(kind string) {
+	if atomic.LoadInt32(&r.armed) == 1 && r.parkMode == kind && atomic.CompareAndSwapInt32(&r.armed, 1, 0) {
+		close(r.parked)
+		<-r.resume
+	}
 }
 
 // inputRec is a notification handed to GnmiUpdate and its deep copy taken
@@ -373,6 +409,8 @@ type inputRec struct{ n, cp *pb.Notification }
 
 // inputsMutated: does any notification ever handed in differ from its copy?
 func (r *runner) inputsMutated() bool {
+	r.mu.Lock()
+	defer r.mu.Unlock()
 	for _, in := range r.inputs {
 		if !proto.Equal(in.n, in.cp) {
 			return true
@@ -545,60 +583,99 @@ func (r *runner) dump() []DumpJ {
 	return out
 }
 
+// exec runs one call against the cache (recovering a panic into the result).
+func (r *runner) exec(o Op) (ob ObsJ) {
+	defer func() {
+		if p := recover(); p != nil {
+			ob = ObsJ{Res: "panic", Msg: fmt.Sprint(p)}
+		}
+	}()
+	switch o.K {
+	case "upd":
+		n := r.shared.mkNoti(o.N)
+		r.mu.Lock()
+		r.inputs = append(r.inputs, inputRec{n: n, cp: proto.Clone(n).(*pb.Notification)})
+		r.mu.Unlock()
+		err := r.c.GnmiUpdate(n)
+		ob.Res, ob.Multi = classify(err)
+	case "reset":
+		r.c.Reset(o.Tgt)
+		ob.Res = "ok"
+	case "remove":
+		r.c.Remove(o.Tgt)
+		ob.Res = "ok"
+	case "add":
+		r.c.Add(o.Tgt)
+		ob.Res = "ok"
+	case "sync":
+		r.c.Sync(o.Tgt)
+		ob.Res = "ok"
+	case "connect":
+		r.c.Connect(o.Tgt)
+		ob.Res = "ok"
+	case "connecterror":
+		r.c.ConnectError(o.Tgt, fmt.Errorf("%s", o.Msg))
+		ob.Res = "ok"
+	case "updatemeta":
+		r.c.UpdateMetadata()
+		ob.Res = "ok"
+	case "hold":
+		for _, g := range r.streams {
+			g.setHeld(true)
+		}
+		ob.Res = "ok"
+	case "release":
+		for _, g := range r.streams {
+			g.setHeld(false)
+		}
+		ob.Res = "ok"
+	case "pair":
+		ob = r.execPair(o)
+	default:
+		panic("unknown op " + o.K)
+	}
+	return ob
+}
+
+// execPair: A runs until it parks at the armed hook (inside its critical
+// section); B is then issued from a second goroutine and must not finish
+// before A is resumed (bounded wait: load can only hide an overtaking, never
+// invent one); then both run to completion.  Without the hook being reached,
+// B simply follows A.
+func (r *runner) execPair(o Op) ObsJ {
+	r.parkMode, r.parked, r.resume = o.Park, make(chan struct{}), make(chan struct{})
+	atomic.StoreInt32(&r.armed, 1)
+	var oa, obb ObsJ
+	doneA, doneB := make(chan struct{}), make(chan struct{})
+	go func() { defer close(doneA); oa = r.exec(*o.A) }()
+	overtook := false
+	select {
+	case <-r.parked:
+		go func() { defer close(doneB); obb = r.exec(*o.B) }()
+		select {
+		case <-doneB:
+			overtook = true
+		case <-time.After(20 * time.Millisecond):
+		}
+		close(r.resume)
+		<-doneA
+		<-doneB
+	case <-doneA:
+		atomic.StoreInt32(&r.armed, 0)
+		obb = r.exec(*o.B)
+	}
+	if overtook {
+		return ObsJ{Res: "overtook", Sub: []ObsJ{oa, obb}}
+	}
+	return ObsJ{Res: "pair", Sub: []ObsJ{oa, obb}}
+}
+
 func (r *runner) apply(o Op) (res ObsJ) {
 	r.feed = nil
 	now := o.Now
-	cache.Now = func() time.Time { return time.Unix(0, now) }
+	cache.Now = func() time.Time { r.maybePark("now"); return time.Unix(0, now) }
 	done := make(chan ObsJ, 1)
-	go func() {
-		var ob ObsJ
-		defer func() {
-			if p := recover(); p != nil {
-				ob = ObsJ{Res: "panic", Msg: fmt.Sprint(p)}
-			}
-			done <- ob
-		}()
-		switch o.K {
-		case "upd":
-			n := r.shared.mkNoti(o.N)
-			r.inputs = append(r.inputs, inputRec{n: n, cp: proto.Clone(n).(*pb.Notification)})
-			err := r.c.GnmiUpdate(n)
-			ob.Res, ob.Multi = classify(err)
-		case "reset":
-			r.c.Reset(o.Tgt)
-			ob.Res = "ok"
-		case "remove":
-			r.c.Remove(o.Tgt)
-			ob.Res = "ok"
-		case "add":
-			r.c.Add(o.Tgt)
-			ob.Res = "ok"
-		case "sync":
-			r.c.Sync(o.Tgt)
-			ob.Res = "ok"
-		case "connect":
-			r.c.Connect(o.Tgt)
-			ob.Res = "ok"
-		case "connecterror":
-			r.c.ConnectError(o.Tgt, fmt.Errorf("%s", o.Msg))
-			ob.Res = "ok"
-		case "updatemeta":
-			r.c.UpdateMetadata()
-			ob.Res = "ok"
-		case "hold":
-			for _, g := range r.streams {
-				g.setHeld(true)
-			}
-			ob.Res = "ok"
-		case "release":
-			for _, g := range r.streams {
-				g.setHeld(false)
-			}
-			ob.Res = "ok"
-		default:
-			panic("unknown op " + o.K)
-		}
-	}()
+	go func() { done <- r.exec(o) }()
 	select {
 	case res = <-done:
 	case <-time.After(20 * time.Second):
@@ -609,6 +686,14 @@ func (r *runner) apply(o Op) (res ObsJ) {
 	}
 	if o.N != nil && o.N.Prefix != nil && o.N.Prefix.Target != "" {
 		r.know(o.N.Prefix.Target)
+	}
+	for _, sub := range []*Op{o.A, o.B} {
+		if sub != nil && sub.Tgt != "" {
+			r.know(sub.Tgt)
+		}
+		if sub != nil && sub.N != nil && sub.N.Prefix != nil && sub.N.Prefix.Target != "" {
+			r.know(sub.N.Prefix.Target)
+		}
 	}
 	res.Feed = r.feed
 	r.feed = nil
@@ -657,8 +742,14 @@ func runCase(c *Case) {
 			panic(fmt.Sprintf("callback got a %T", l.Value()))
 		}
 		if !isMetaNoti(n) { // metadata is projected out, as in the dump
+			r.mu.Lock()
 			r.feed = append(r.feed, projNoti(n))
+			r.mu.Unlock()
 		}
+		if len(n.GetDelete()) > 0 && len(n.GetUpdate()) == 0 {
+			r.maybePark("feeddel")
+		}
+		r.maybePark("feed")
 		if r.srv != nil { // chained: the real subscribe.Server consumes the same feed
 			r.srv.Update(l)
 		}
@@ -825,6 +916,16 @@ func (t *termer) res(o *ObsJ) string {
 		}
 		return "ROther"
 	}
+	if o.Res == "overtook" {
+		return "ROvertook"
+	}
+	if o.Res == "pair" {
+		a, b := t.res(&o.Sub[0]), t.res(&o.Sub[1])
+		if a == "RPanic" || b == "RPanic" {
+			return "RPanic"
+		}
+		return "(RMulti [" + a + "; " + b + "])"
+	}
 	if o.Res == "multi" {
 		el := make([]string, len(o.Multi))
 		for i, m := range o.Multi {
@@ -855,6 +956,8 @@ func (t *termer) op(o *Op) string {
 		return "OUpdateMeta " + vh.Z(o.Now)
 	case "hold", "release":
 		return "ONop"
+	case "pair":
+		return fmt.Sprintf("OPair (%s) (%s)", t.op(o.A), t.op(o.B))
 	}
 	panic("op")
 }
